@@ -95,7 +95,10 @@ fn supervise(args: &Args, time_cap: Duration) -> ! {
     // the child's scratch directories are not removed when it dies
     if let Ok(d) = std::fs::read_dir("/dev/shm") {
         for e in d.filter_map(|e| e.ok()) {
-            if e.file_name().to_string_lossy().starts_with(&format!("ckb-verif-{pid}-")) {
+            if e.file_name()
+                .to_string_lossy()
+                .starts_with(&format!("ckb-verif-{pid}-"))
+            {
                 let _ = std::fs::remove_dir_all(e.path());
             }
         }
@@ -108,7 +111,15 @@ fn supervise(args: &Args, time_cap: Duration) -> ! {
         }
     }
     let mut report = Report::new("C09", "fault_enumeration", args, RULE);
-    let tail: String = err.lines().rev().take(8).collect::<Vec<_>>().into_iter().rev().collect::<Vec<_>>().join(" | ");
+    let tail: String = err
+        .lines()
+        .rev()
+        .take(8)
+        .collect::<Vec<_>>()
+        .into_iter()
+        .rev()
+        .collect::<Vec<_>>()
+        .join(" | ");
     match status {
         None => report.inconclusive("watchdog: the engine process did not finish in time (killed)"),
         Some(st) => report.violation(
@@ -136,7 +147,10 @@ fn main() {
     let mut report = Report::new("C09", "fault_enumeration", &args, RULE);
     report.max_samples = 8;
 
-    let cores = std::thread::available_parallelism().map(|n| n.get()).unwrap_or(4).min(16);
+    let cores = std::thread::available_parallelism()
+        .map(|n| n.get())
+        .unwrap_or(4)
+        .min(16);
     let threads = args.get_u64("threads", cores as u64).max(1) as usize;
     let n_files = args.get_u64("files_histories", tier.pick(200, 5000));
     let n_frz = args.get_u64("freezer_histories", tier.pick(60, 700));
@@ -176,7 +190,9 @@ fn main() {
     }
     // replay of a single job: only=directed:K | files:K | freezer:K
     if let Some(only) = args.get_str("only") {
-        let (kind, k) = only.split_once(':').expect("only=<directed|files|freezer>:<index>");
+        let (kind, k) = only
+            .split_once(':')
+            .expect("only=<directed|files|freezer>:<index>");
         let k: u64 = k
             .parse()
             .ok()
@@ -234,11 +250,18 @@ fn main() {
                             let _ = std::fs::write(c, label);
                         }
                         let mut st = Stats::default();
-                        let r = std::panic::catch_unwind(std::panic::AssertUnwindSafe(|| match &job {
-                            Job::Directed(k) => files_engine::run_directed(&fcfg, &directed[*k], &dirs, &mut st),
-                            Job::Files(k) => files_engine::run_random(&fcfg, *k, &dirs, &mut st),
-                            Job::Freezer(k) => freezer_engine::run_random(&zcfg, *k, &dirs, &mut st),
-                        }));
+                        let r =
+                            std::panic::catch_unwind(std::panic::AssertUnwindSafe(|| match &job {
+                                Job::Directed(k) => {
+                                    files_engine::run_directed(&fcfg, &directed[*k], &dirs, &mut st)
+                                }
+                                Job::Files(k) => {
+                                    files_engine::run_random(&fcfg, *k, &dirs, &mut st)
+                                }
+                                Job::Freezer(k) => {
+                                    freezer_engine::run_random(&zcfg, *k, &dirs, &mut st)
+                                }
+                            }));
                         if let Err(p) = r {
                             let (lvl, k) = match &job {
                                 Job::Directed(k) => (files_engine::LVL, *k as u64),
